@@ -7,6 +7,9 @@
     Python's sqlite3 module) appends the file system it leaves behind to a
     trace.  A crash after the k-th step leaves the k-th file system of that
     trace: everything held in memory (an open transaction) is lost.
+    shutil.copy (the backup before an upgrade) is NOT one step: it is the
+    three steps copy-create / copy-partial / copy-done, so a crash can leave
+    an empty or a truncated backup file.
 
     Definitions only; facts are in DbFilesFacts.v.  Stdlib + Sql.v only.
 
@@ -76,7 +79,11 @@ Definition path_eqb (a b : path) : bool :=
 
 Inductive label :=
 | LExists | LMkstemp | LCloseFd | LConnect | LPragmaFk | LFkCheck
-| LSql (s : stmt) | LSelectVersion | LDbClose | LRename | LCopy (v : Z).
+| LSql (s : stmt) | LSelectVersion | LDbClose | LRename
+(* shutil.copy(dbfile, dbfile-backup-v<v>) is not atomic: three steps *)
+| LCopyCreate (v : Z)     (* destination created / truncated: 0 bytes *)
+| LCopyPartial (v : Z)    (* a strict prefix of the bytes is in the destination *)
+| LCopyDone (v : Z).      (* all bytes written, file closed *)
 
 Inductive exn :=
 | XDBError          (* database.DBError *)
@@ -243,11 +250,27 @@ Section Model.
                            | Some x => (inl tt, mkW (set b x (remove a (w_fs w))) (w_txn w) (w_trace w))
                            | None => (inr XOS, w)
                            end).
+  (** shutil.copy(a, dbfile-backup-v<v>) is NOT atomic: it opens the source
+      (OSError when there is none: nothing is created), creates or truncates
+      the destination (whatever was there before is gone: [Empty]), writes the
+      bytes (a crash leaves a strict prefix of the source: a truncated SQLite
+      file, on which the first schema read fails -- [Junk]; content token 0
+      is reserved for "truncated copy of the source", the harness numbers
+      pre-existing junk contents from 1), and only then holds the content of
+      the source.  Three consecutive atomic steps, so the crash prefixes
+      include the two partial states. *)
+  Definition partial_copy : file := Junk O.
+  Definition write_file (q : path) (x : file) : M unit :=
+    fun w => (inl tt, mkW (set q x (w_fs w)) (w_txn w) (w_trace w)).
+  Definition copy_steps (v : Z) (x : file) : M unit :=
+    step (LCopyCreate v) (write_file (Backup v) Empty) ;;;
+    step (LCopyPartial v) (write_file (Backup v) partial_copy) ;;;
+    step (LCopyDone v) (write_file (Backup v) x).
   Definition shutil_copy (a : path) (v : Z) : M unit :=
-    step (LCopy v) (fun w => match lookup a (w_fs w) with
-                             | Some x => (inl tt, mkW (set (Backup v) x (w_fs w)) (w_txn w) (w_trace w))
-                             | None => (inr XOS, w)
-                             end).
+    fun w => match lookup a (w_fs w) with
+             | Some x => copy_steps v x w
+             | None => step (LCopyCreate v) (raise XOS) w
+             end.
   (** sqlite3.connect creates an empty file when there is none *)
   Definition sqlite_connect (q : path) : M unit :=
     step LConnect (fun w => match lookup q (w_fs w) with
